@@ -7,17 +7,22 @@
 (* law of MetricsP broken by what the model exports; Accept demands "ok" in every reachable state.                     *)
 EXTENDS MetricsI
 
-CONSTANTS MaxTxn, MaxFlush, MaxReload, MaxRestart, MaxScrape, MaxCollect,
+CONSTANTS MaxTxn, MaxFlush, MaxReload, MaxRestart, MaxScrape, MaxCollect, MaxTick,
           FileSel, FlowSel        \* which of the files / flow sets below the instance draws from
 
-VARIABLES g, h, ntxn, nreload, nrestart, nscrape, ncollect, verdict, devs
-vars == <<g, h, ntxn, nreload, nrestart, nscrape, ncollect, verdict, devs>>
+VARIABLES g, h, ntxn, nreload, nrestart, nscrape, ncollect, ntick, verdict, devs
+vars == <<g, h, ntxn, nreload, nrestart, nscrape, ncollect, ntick, verdict, devs>>
 
 Known == << <<"a.t", "v", "{id}">> >>
 
 Flow(name, pat, fm, fl, gate, st, gm, gl, rf, rm, rl) ==
-    [name |-> name, pat |-> pat, fk |-> "F_" \o name, fm |-> fm, fl |-> fl, gate |-> gate, st |-> st, gk |-> "G_" \o name,
+    [name |-> name, pat |-> pat, lim |-> FALSE, lq |-> "-", fk |-> "F_" \o name, fm |-> fm, fl |-> fl, gate |-> gate, st |-> st, gk |-> "G_" \o name,
      gm |-> gm, gl |-> gl, rf |-> rf, rk |-> "R_" \o name, rm |-> rm, rl |-> rl]
+\* a limiter flow on quota q
+LimFlow(name, pat, q, fm, fl) ==
+    [name |-> name, pat |-> pat, lim |-> TRUE, lq |-> q, fk |-> "F_" \o name, fm |-> fm, fl |-> fl, gate |-> TRUE, st |-> 429, gk |-> "G_" \o name,
+     gm |-> FALSE, gl |-> <<>>, rf |-> FALSE, rk |-> "R_" \o name, rm |-> FALSE, rl |-> <<>>]
+Quota(id, pat, max, w) == [id |-> id, pat |-> pat, max |-> max, w |-> w, inc |-> id \o "_QuotaProcessorInc", grp |-> id \o "_default"]
 
 F1 == Flow("f1", <<"a.t", "*">>, TRUE, <<"flow_name", "http_method", "consumer_tag">>, TRUE, 418, TRUE, <<"flow_name", "processor_key", "url">>, FALSE, FALSE, <<>>)
 F2 == Flow("f2", <<"a.t", "v", "{id}">>, TRUE, <<"flow_name", "status_code">>, FALSE, 0, FALSE, <<>>, TRUE, TRUE, <<"status_code", "consumer_tag", "host">>)
@@ -25,7 +30,11 @@ F3 == Flow("f3", <<"a.t", "w">>, FALSE, <<"flow_name">>, TRUE, 429, FALSE, <<"fl
 \* two filters of different keys that count under one label set: the registry meets one series twice
 F4 == Flow("f4", <<"a.t", "*">>, TRUE, <<"http_method">>, FALSE, 0, FALSE, <<>>, FALSE, FALSE, <<>>)
 F5 == Flow("f5", <<"a.t", "v", "{id}">>, TRUE, <<"http_method">>, FALSE, 0, FALSE, <<>>, FALSE, FALSE, <<>>)
-FlowSetList == << <<F1, F2>>, <<F3>>, <<F4, F5>>, <<>> >>
+F6 == LimFlow("f6", <<"a.t", "*">>, "q1", TRUE, <<"flow_name", "http_method">>)
+F7 == LimFlow("f7", <<"a.t", "v", "{id}">>, "q2", FALSE, <<>>)
+FlowSetList == << <<F1, F2>>, <<F3>>, <<F4, F5>>, <<>>, <<F6>>, <<F7>> >>
+\* the quotas a flow set needs (quota ids are not reused between the configurations of one lifetime)
+QuotasOf(fs) == IF fs = <<F6>> THEN <<Quota("q1", <<"a.t", "*">>, 1, 10)>> ELSE IF fs = <<F7>> THEN <<Quota("q2", <<"a.t", "v", "{id}">>, 2, 10)>> ELSE <<>>
 FlowSets == {FlowSetList[i] : i \in FlowSel}
 
 FileOf(labels, lep, gm, sm, gw) == [labels |-> labels, lepp |-> lep, gm |-> gm, sm |-> sm, gw |-> gw]
@@ -45,7 +54,7 @@ Letters == { T("GET", <<"a.t", "v", "1">>, "A", "", 200, 10, -1, 10, 100),
 \* the plugin's URL tree of the instance: the known endpoint folds its URLs
 MCAttr == LET us == << <<"a.t", "v", "1">>, <<"a.t", "v", "2">>, <<"b.t", "x">>, <<"a.t", "w">> >> IN [i \in DOMAIN us |-> <<us[i], Norm(Known, us[i])>>]
 
-StartEv(c, fs) == [labels |-> c.labels, lepp |-> c.lepp, gm |-> c.gm, sm |-> c.sm, gw |-> c.gw, flows |-> fs, legacy |-> TRUE]
+StartEv(c, fs) == [labels |-> c.labels, lepp |-> c.lepp, gm |-> c.gm, sm |-> c.sm, gw |-> c.gw, flows |-> fs, legacy |-> TRUE, quotas |-> QuotasOf(fs)]
 
 Judge(hh, gg) == ScrapeLaw(hh, IScrape(gg), IGatherError(gg))
 
@@ -53,7 +62,7 @@ Init ==
     /\ \E c \in Files, fs \in FlowSets :
          /\ g = IStart(IReset(Known), StartEv(c, fs))
          /\ h = PStart(PReset(Known), StartEv(c, fs))
-    /\ ntxn = 0 /\ nreload = 0 /\ nrestart = 0 /\ nscrape = 0 /\ ncollect = 0 /\ verdict = "ok" /\ devs = {}
+    /\ ntxn = 0 /\ nreload = 0 /\ nrestart = 0 /\ nscrape = 0 /\ ncollect = 0 /\ ntick = 0 /\ verdict = "ok" /\ devs = {}
 
 Txn(t) ==
     /\ ntxn < MaxTxn
@@ -65,29 +74,30 @@ Txn(t) ==
            /\ verdict' = IF tl # "ok" THEN tl ELSE Judge(h2, g2)
            /\ devs' = devs \cup ScrapeDevs(h2, IScrape(g2), IGatherError(g2))
     /\ ntxn' = ntxn + 1
-    /\ UNCHANGED <<nreload, nrestart, nscrape, ncollect>>
+    /\ UNCHANGED <<nreload, nrestart, nscrape, ncollect, ntick>>
 
 Flush(n) ==
     /\ Len(g.pend) > 0 /\ n <= Len(g.pend)
     /\ g' = IFlush(g, n, MCAttr) /\ h' = PFlush(h, n, MCAttr)
     /\ verdict' = Judge(h', g')
     /\ devs' = devs \cup ScrapeDevs(h', IScrape(g'), IGatherError(g'))
-    /\ UNCHANGED <<ntxn, nreload, nrestart, nscrape, ncollect>>
+    /\ UNCHANGED <<ntxn, nreload, nrestart, nscrape, ncollect, ntick>>
 
 \* a scrape moves the parser cache; worth a step only when the cache is behind the file
 Scrape ==
     /\ nscrape < MaxScrape /\ (~g.cached \/ g.cver # g.fver)
     /\ g' = IAfterScrape(g) /\ nscrape' = nscrape + 1
     /\ verdict' = Judge(h, g')
-    /\ UNCHANGED <<h, ntxn, nreload, nrestart, devs, ncollect>>
+    /\ UNCHANGED <<h, ntxn, nreload, nrestart, devs, ncollect, ntick>>
 
 Reload(c, fs) ==
     /\ nreload < MaxReload /\ c.gw = g.gw
+    /\ \A q \in SeqSet(QuotasOf(fs)) : ~\E o \in SeqSet(g.quotas) \cup {x.q : x \in SeqSet(g.qoldobj)} : o.id = q.id
     /\ g' = IReload(g, StartEv(c, fs)) /\ h' = PReload(h, StartEv(c, fs))
     /\ verdict' = Judge(h', g')
     /\ devs' = devs \cup ScrapeDevs(h', IScrape(g'), IGatherError(g'))
     /\ nreload' = nreload + 1
-    /\ UNCHANGED <<ntxn, nrestart, nscrape, ncollect>>
+    /\ UNCHANGED <<ntxn, nrestart, nscrape, ncollect, ntick>>
 
 \* the access log of the transactions not flushed yet is flushed before the container goes down
 Restart(c, fs) ==
@@ -96,7 +106,7 @@ Restart(c, fs) ==
     /\ verdict' = Judge(h', g')
     /\ devs' = devs \cup ScrapeDevs(h', IScrape(g'), IGatherError(g'))
     /\ nrestart' = nrestart + 1
-    /\ UNCHANGED <<ntxn, nreload, nscrape, ncollect>>
+    /\ UNCHANGED <<ntxn, nreload, nscrape, ncollect, ntick>>
 
 \* a collection tick of the histogram managers; worth a step only when the file moved since their last one
 Collect ==
@@ -105,10 +115,20 @@ Collect ==
     /\ verdict' = Judge(h', g')
     /\ devs' = devs \cup ScrapeDevs(h', IScrape(g'), IGatherError(g'))
     /\ ncollect' = ncollect + 1
-    /\ UNCHANGED <<ntxn, nreload, nrestart, nscrape>>
+    /\ UNCHANGED <<ntxn, nreload, nrestart, nscrape, ntick>>
+
+\* the clock moves beyond every window
+Tick ==
+    /\ ntick < MaxTick
+    /\ g' = ITick(g, 11) /\ h' = PTick(h, 11)
+    /\ verdict' = Judge(h', g')
+    /\ devs' = devs \cup ScrapeDevs(h', IScrape(g'), IGatherError(g'))
+    /\ ntick' = ntick + 1
+    /\ UNCHANGED <<ntxn, nreload, nrestart, nscrape, ncollect>>
 
 Next ==
     \/ Collect
+    \/ Tick
     \/ \E t \in Letters : Txn(t)
     \/ \E n \in 1..MaxFlush : Flush(n)
     \/ Scrape
@@ -130,5 +150,8 @@ W_NoDupDev     == "duplicate-series" \notin devs
 W_NoLegacyDev  == "legacy-first-sight" \notin devs
 W_NoLegacy     == ~\E s \in IScrape(g) : s.n = "lunar_transaction"
 W_NoHist2      == ~\E s \in IScrape(g) : s.n = "lunar_transaction_duration" /\ s.v >= 2000
+W_NoQuotaZero  == "quota-used-zero-after-refusal" \notin devs
+W_NoQuotaStale == "quota-series-survive-reload" \notin devs
+W_NoUsed2      == ~\E s \in IScrape(g) : s.n = "lunar_resources_quota_resource_quota_used" /\ s.v >= 2000
 W_NoCut        == ~\E i \in DOMAIN h.reqs : h.reqs[i].flows = {"f1"}
 ================================================================================
